@@ -11,6 +11,8 @@ first-principles oracle (rules/oracle/gregorian.py), for the whole supported ran
  RF2-leap     the leap year predicate (folded over one 400-year cycle)
  RF2-jan00    the year-start formula __jan00_daisy (a closed formula without control flow, folded over every supported year)
  RF2-base     day-number bases (Lilian, Julian, Matlab) and the Unix epoch base, seconds per day
+ RF2-ymd2daisy the closed formula __ymd_to_daisy (Neri-Schneider), folded for the first of each of the 29,940 months, and additive
+              in the day of the month
  RF2-range    the validity bound of __daisy_to_ymd covers every day of the supported range
  RF9-yearadj  the readjustment tests of __daisy_get_year agree with each other and with the convention day count = year start +
               day of year (>= 1)
@@ -500,6 +502,104 @@ def check_range(P, R, tu, base):
         R.finding(rule, fn, "upper bound %d" % bound, "day counts up to %d are accepted, beyond %d-12-31 (day %d): the 12-bit year wraps" % (bound, ymax, last), node)
 
 
+def _subst_members(e, values):
+    """copy of an expression / statement tree with reads of members (by name) replaced by integer literals"""
+    if e is None:
+        return None
+    if e.get("k") == "MemberExpr" and e.get("n") in values:
+        return {"k": "IntegerLiteral", "v": values[e["n"]], "t": e.get("t")}
+    out = dict(e)
+    if "c" in e:
+        out["c"] = [_subst_members(c, values) if c is not None else None for c in e["c"]]
+    return out
+
+
+def _fold_straightline(tu, stmts, env):
+    """fold a loop-free statement list: declarations, assignments, if (folded), return"""
+    for s in stmts:
+        k = s.get("k")
+        if k == "DeclStmt":
+            for v in kids(s):
+                if v.get("k") == "Var" and kids(v):
+                    env[v["d"]] = ceval(kids(v)[0], env, tu.types)
+        elif k == "BinaryOperator" and s.get("op") == "=":
+            env[strip(s["c"][0])["d"]] = ceval(s["c"][1], env, tu.types)
+        elif k == "CompoundAssignOperator":
+            d = strip(s["c"][0])["d"]
+            synth = {"k": "BinaryOperator", "op": s["op"][:-1], "c": [s["c"][0], s["c"][1]], "t": s.get("t")}
+            env[d] = ceval(synth, env, tu.types)
+        elif k == "IfStmt":
+            br = s["c"][1] if ceval(s["c"][0], env, tu.types) else (s["c"][2] if len(s["c"]) > 2 else None)
+            if br is not None:
+                r = _fold_straightline(tu, kids(br) if br.get("k") == "CompoundStmt" else [br], env)
+                if r is not None:
+                    return r
+        elif k == "CompoundStmt":
+            r = _fold_straightline(tu, kids(s), env)
+            if r is not None:
+                return r
+        elif k == "ReturnStmt":
+            return ("ret", ceval(kids(s)[0], env, tu.types))
+        elif k == "NullStmt":
+            pass
+        else:
+            raise NotConst(k)
+    return None
+
+
+def check_ymd2daisy(P, R, tu, base):
+    """__ymd_to_daisy is a closed formula (no loop, no table): folded for the first of every month of every supported year it
+    must give the oracle's day count, and the day of the month must enter additively (checked on the formula's polynomial)"""
+    rule = "RF2-ymd2daisy"
+    fn = tu.func("__ymd_to_daisy")
+    if fn is None:
+        raise AnalysisBroken("__ymd_to_daisy vanished")
+    R.saw(fn)
+    if any(x.get("k") in ("ForStmt", "WhileStmt", "DoStmt", "SwitchStmt", "GotoStmt") for x in fn.walk()):
+        raise AnalysisBroken("%s: __ymd_to_daisy is not a closed formula any more" % rule)
+    ymin, ymax = _years(tu)
+    # additivity in the day: the polynomial summary has d.d with coefficient 1 outside every quotient
+    import conserve
+    sm = conserve.Summariser(fn)
+    try:
+        paths = sm.summarise()
+    except AnalysisBroken as e:
+        raise AnalysisBroken("%s: %s" % (rule, e))
+    dk = (fn.params[0]["d"], "d")
+    add_ok = bool(paths)
+    for p_ in paths:
+        r = p_.ret
+        if not isinstance(r, conserve.Poly):
+            add_ok = False
+            continue
+        dsym = ("in", dk)
+        lin = r.get((dsym,), 0)
+        inside = any(dsym in m_ and m_ != (dsym,) for m_ in r) or any(repr(dsym) in repr(sy) for m_ in r for sy in m_ if sy != dsym)
+        if lin != 1 or inside:
+            add_ok = False
+    if add_ok:
+        R.ob(rule, "__ymd_to_daisy: the day of the month enters the result additively with coefficient 1", True)
+    else:
+        R.finding(rule, fn, "day term", "the day of the month does not enter the day count as a plain summand")
+    body = kids(fn.body)
+    bad = []
+    for y in range(ymin, ymax + 1):
+        for m in range(1, 13):
+            st = [_subst_members(s_, {"y": y, "m": m, "d": 1}) for s_ in body]
+            try:
+                r = _fold_straightline(tu, st, {})
+            except NotConst as e:
+                raise AnalysisBroken("%s: cannot fold __ymd_to_daisy: %s" % (rule, e))
+            if r is None or r[1] != G.daisy(y, m, 1, base):
+                bad.append((y, m, r and r[1]))
+    if not bad:
+        R.ob(rule, "__ymd_to_daisy(y-m-01) is the day count of the first of the month for all %d months of %d..%d" % ((ymax - ymin + 1) * 12, ymin, ymax), True)
+    else:
+        y, m, got = bad[0]
+        R.finding(rule, fn, "closed formula", "the formula gives %s for %04d-%02d-01, the day count is %d (%d of %d months wrong)"
+                  % (got, y, m, G.daisy(y, m, 1, base), len(bad), (ymax - ymin + 1) * 12))
+
+
 def check_yearadj(P, R, tu):
     """the year of a day count: estimate, then step back while the year's day 0 is not before the day.  __yd_to_daisy defines
     the convention (day count = year start + day of year, day of year >= 1), so `start >= d` is the only test that is right
@@ -582,6 +682,7 @@ def check(P, R, tier):
     check_bases(P, R, tu, dtu, base)
     check_range(P, R, tu, base)
     check_yearadj(P, R, tu)
+    check_ymd2daisy(P, R, tu, base)
     check_conv(P, R, tu)
 
 
